@@ -288,13 +288,25 @@ def r6_drop(ctx, F):
 def joined_threads(F, strat):
     """(closure body, spawn call) for each thread whose JoinHandle flows into `handles`"""
     sp = Spawn(F, strat)
-    s = sp.b
+    s = F.norm(sp.b)       # `handles.push(spawn(..))` in a loop, or `(0..n).map(|t| spawn(..)).collect()`
     out = []
-    for c in s.calls_to('Vec::push'):
-        if 'JoinHandle' not in (c.targs[0] if c.targs else ''):
-            continue
-        v = s.trace(s.val(c.args[1]), ('Result::expect', 'Result::unwrap'))
-        sc = s.call_at(v.key) if v.kind == 'call' else None
+    from common import collected_elements
+    sites = [(c, c.args[1]) for c in s.calls_to('Vec::push') if 'JoinHandle' in (c.targs[0] if c.targs else '')]
+    sites += [(y, el) for (y, el, col) in collected_elements(s, lambda t: 'JoinHandle' in t)]
+    from taint import origins
+
+    def spawn_call(op, depth=0):
+        org = origins(s, op) if op.get('k') in ('copy', 'move') else set()
+        if len(org) != 1 or depth > 4:
+            return None
+        o = next(iter(org))
+        if isinstance(o, (str, tuple)):
+            return None
+        if o.is_('Result::expect', 'Result::unwrap'):
+            return spawn_call(o.args[0], depth + 1)
+        return o
+    for c, el in sites:
+        sc = spawn_call(el)
         if sc is None or not sc.is_('Builder::spawn', 'thread::spawn'):
             raise AnchorMissing('%s: a JoinHandle pushed to handles does not come from a thread spawn' % s.path)
         cv = s.val(sc.args[-1])
